@@ -16,7 +16,7 @@ def check(run):
     quick = run.tier == "quick"
     run.build_harness()
     run.tlc_mc("XState.tla", "MC_XState_tok.cfg" if quick else "MC_XState_tok_thorough.cfg", timeout=3000)
-    tok = '{"t1", "t2", "t3", "t4", "t5", "t6", "t7", "t8", "w1", "w2", "w3", "w4", "w5", "c1", "p1", "p2"}'
+    tok = '{"t1", "t2", "t3", "t4", "t5", "t6", "t7", "t8", "w1", "w2", "w3", "w4", "w5", "w6", "c1", "p1", "p2"}'
     base = [dict(num=70, ops=18, txs=tok)] if quick else [dict(num=800, ops=20, txs=tok), dict(num=400, ops=28, maxb=9, txs=tok)]
     groups = xc.gen(run, base)
     variants = [[], ["-scale", BIG], ["-scale", BIG, "-enc", "lz"]]
